@@ -18,6 +18,14 @@ CHECKS = {
          "Exploration: ~800k unrepaired stack-free grammars (quick), of which ~27% are accepted; each accepted grammar is run on every string of length <= 3 over its alphabet from every rule, and the evaluator must never prove divergence; 200k by-construction well-formed grammars must be accepted. Sampled over grammars, exhaustive over short inputs.",
          "Trusts refsem.rs's 1:1 lowering of optimized rules and its recurrence detection (exact for stack-free grammars). Open finding D15 (recursion through the implicit WHITESPACE/COMMENT call) is recognised by the model's cycle containing an implicit-skip entry; any other escape is still a violation.",
          "DESIGN.md section 4, C06"),
+ "C12": ("metamorphic limit sweep over generated grammar/input cases (every limit value up to the number of calls the parse needs, counted by a cfg hook)",
+         "Exploration: ~60k generated grammars (quick) x rules x inputs, each parsed once without a limit and once per swept limit L (all L when the parse needs <= 400 calls); each limited result must be the unlimited result or `call limit reached`, and completion must be monotone in L.",
+         "Trusts the hook counter only to size the sweep (the oracle does not depend on it). VM back-end only. Cases whose unlimited parse panics (empty-stack POP/PEEK) are skipped.",
+         "DESIGN.md section 4, C12"),
+ "C15": ("metamorphic comparison of the same generated parse with error detail off and on, plus validity/renderability predicates on the recorded attempts",
+         "Exploration: ~200k generated grammars (quick) x rules x inputs, ~2.5M parse pairs; outcome equality (tokens or error position/line-col/rule sets), no panic with detail on, max_position on a char boundary in range, help message renders.",
+         "VM back-end; process-global switch handled by single-threaded worker processes. Says nothing about the *content* of the help message beyond renderability.",
+         "DESIGN.md section 4, C15"),
  "C10": ("exhaustive small-scope enumeration of strings x offsets x offset pairs + proptest strings, against direct definitions of line/column/line containment",
          "Exploration: all strings of <= 6 symbols (quick) / 8 (thorough) over {a, LF, CR, TAB, e-acute, emoji} with every offset and offset pair, plus random long strings; Position/Span/Pair/Error line-column results and the rendered error text are compared with the definitions. Bounded-exhaustive plus sampled.",
          "Marker alignment is not asserted when a lone CR precedes the offset on its line; empty-span lines() may be empty or the containing line; see DESIGN.md C10.",
